@@ -146,7 +146,7 @@ CLAIMED.update({
         "within observed dependencies, every result equal to sequential execution, normal exit (watchdog for hangs). Gated schedules (hook H6): every reachable state of "
         "the model with a running initialiser is reached on the real code by holding threads at the begin / end of initialisers and releasing them at one instant; "
         "the process must terminate with sequential results (DESIGN.md 12.7).",
-   note="Trusted: TLC, std::sync::LazyLock semantics as modelled. Race / storm processes sample real schedules (60 quick / 2000 thorough); gated schedules (hook H6) drive fresh processes into every reachable model state with a running initialiser (17 060 quick / 75 394 thorough processes); between hold points the OS schedules.",
+   note="Trusted: TLC, std::sync::LazyLock semantics as modelled. Race / storm processes sample real schedules (60 quick / 2000 thorough); gated schedules (hook H6) drive fresh processes into every reachable model state with a running initialiser (17 260 quick / 75 394 thorough processes); between hold points the OS schedules.",
    ref="DESIGN.md section 5 (C16) and 12.7"),
 })
 PENDING = {}
